@@ -269,7 +269,7 @@ func (so *Sorts) Zero(t types.Type) *Term {
 	switch u := t.Underlying().(type) {
 	case *types.Array:
 		es := so.Sort(u.Elem())
-		return tb.mk(kApp, "(as const "+srt+")", srt, so.Zero(u.Elem()))
+		return tb.ConstArray("Int", so.Sort(u.Elem()), so.Zero(u.Elem()))
 		_ = es
 	case *types.Struct:
 		var args []*Term
